@@ -773,12 +773,16 @@ impl Parser {
 
     fn parse_function(&mut self, function: Function) -> Result<Expr, String> {
         let is_boolean_function = function.is_boolean_function();
+        let is_argumentless_function = function.is_argumentless_function();
         let mut function_expr = Expr::function(function);
 
         let mut curly_mode = false;
         if let Some(lexem) = self.next_lexem() {
             if lexem != Lexem::Open && lexem != Lexem::CurlyOpen {
-                if is_boolean_function {
+                // no argument list: the lexem belongs to whatever follows the function
+                self.drop_lexem();
+
+                if is_boolean_function || is_argumentless_function {
                     return Ok(function_expr);
                 }
 
